@@ -435,7 +435,7 @@ def c05(pid, tier, seed):
     # "skipped draws lose nothing: the next painted frame shows the latest position, length and texts" for several bars behind one
     # limited target is a statement about the whole frame: judged by the Screen contract on limited MultiProgress histories
     latest = screen_check(pid, tier, seed, [
-        fam("latest_multi", W=6, H=12, Multi=True, MaxBars=2, Pre=2, D=6 if q else 7, BarOps=("burst", "set_message", "inc", "set_length", "tick"), MpOps=(),
+        fam("latest_multi", W=6, H=12, Multi=True, MaxBars=2, Pre=2, D=5 if q else 6, BarOps=("burst", "set_message", "inc", "set_length", "tick"), MpOps=(),
             MsgShapes=("a", "W1"), Tpls=("MnC",), Fins=("AndLeave",), Hz=2, DTs=(0, 600000), M0="id", shards=12)], "")
     states += latest["coverage"]["states"]
     trans += latest["coverage"]["transitions"]
